@@ -413,7 +413,9 @@ CHECKS["C16"] = dict(
           "int8..int64, float32, float64, bool, string, named variants, struct, slice, uint; 0..3 results over the same plus error, a named "
           "error type, chan error, <-chan error; non-functions and nil): registration accepts exactly the bridgeable ones without panicking; for "
           "each accepted one a symbolic argument list (0..4 arguments of symbolic kind and payload, all doubles) either invokes the function "
-          "exactly once with the converted arguments in order and converts result/error back, or is an error without invoking it; no panic path.",
+          "exactly once with the converted arguments in order and converts result/error back, or is an error without invoking it; no panic path. "
+          "The same registered function is then called a second time with well-typed arguments (whatever the first call was, it leaves nothing "
+          "behind), and a converted command is run again after a run whose outcome nobody collected (it reports its own outcome).",
     note="Go types cannot be solver variables: the signature space is a finite list written in the harness (enumerated, not symbolic). "
          "reflect's semantics (arity/assignability rules of Value.Call, ConvertibleTo, Convert) are supplied by the engine from go/types, not "
          "reflect's implementation. Out-of-range float->small-int conversions follow amd64.",
